@@ -2,16 +2,19 @@
 
 use super::common::*;
 use super::inter::shdr;
+#[allow(unused_imports)]
 use crate::evidence::{catch, panic_sig, Report, Tier};
 use crate::refdec::{dequant, CmpStats};
 use crate::refhdr::StdHdr;
 use crate::syntax::*;
 use crate::tables::zigzag;
 use crate::util::*;
+#[cfg(feature = "internals")]
 use h263_rs::verif::{inverse_rle, Block, DecodedDctBlock, IntraDc, TCoefficient};
 use rayon::prelude::*;
 use serde_json::json;
 
+#[cfg(feature = "internals")]
 fn matrix(b: &DecodedDctBlock) -> [[f32; 8]; 8] {
     let mut m = [[0f32; 8]; 8];
     match b {
@@ -28,11 +31,9 @@ fn matrix(b: &DecodedDctBlock) -> [[f32; 8]; 8] {
     m
 }
 
-pub fn run(tier: Tier) -> Report {
-    let rep = Report::new("C11", "dequant", tier);
-    let zz = zigzag();
-
-    // ---- (a) exact, through the hook: q x level x position x {with, without INTRADC}
+#[cfg(feature = "internals")]
+fn direct_part(rep: &Report, zz: &[(usize, usize); 64]) {
+    // (a) exact, through the hook: q x level x position x {with, without INTRADC}
     let qs: Vec<u8> = (1..=31).collect();
     let n_direct: u64 = qs
         .par_iter()
@@ -84,6 +85,20 @@ pub fn run(tier: Tier) -> Report {
     rep.add_transitions(n_direct);
     rep.add_states(n_direct);
     rep.extra("direct_dequantiser_calls", json!(n_direct));
+}
+
+pub fn run(tier: Tier) -> Report {
+    let rep = Report::new("C11", "dequant", tier);
+    let zz = zigzag();
+
+    #[cfg(feature = "internals")]
+    direct_part(&rep, &zz);
+    #[cfg(not(feature = "internals"))]
+    {
+        let _ = &zz;
+        rep.extra("degraded", json!("hooked internals did not build: the direct dequantiser sweep was skipped, end-to-end sweeps only"));
+        println!("NOTE: C11 runs without the direct (hooked) dequantiser sweep");
+    }
 
     // ---- (b) end to end: every q x every level in every codable form, six consecutive levels per picture
     let mut pics: Vec<Pic> = vec![];
